@@ -5,7 +5,7 @@ CONSTANTS
  HashSession = TRUE
  HashId = TRUE
  DedupMode = "peer+id"
- Level = "raw"
+ AllowRelay = TRUE
 CONSTRAINT Mark
 POSTCONDITION Report
 CHECK_DEADLOCK FALSE
